@@ -11,7 +11,6 @@ import (
 	"strings"
 	"sync"
 
-
 	"verif/internal/ev"
 )
 
